@@ -476,3 +476,148 @@ pub fn catalogue() -> Vec<Damage> {
         KeywordGarbled, SubsectionGarbled, CountWrong(-1), CountWrong(1),
     ]
 }
+
+// ---------------------------------------------------------------------------------------------
+// styled documents: every legal way of delimiting `obj` / `endobj` (ISO 32000-1 7.2.2/7.3.10:
+// the keyword `obj` is a regular-character token, so it ends at white space, at a comment or at
+// one of the delimiters ( < [ / %), CR / LF / CRLF line ends, values of every kind as top-level
+// objects referenced from the page tree.
+
+#[derive(Clone, Debug)]
+pub struct SObj {
+    pub n: u32,
+    pub body: Vec<u8>,
+    pub sep: Vec<u8>,     // between `obj` and the value
+    pub pre_end: Vec<u8>, // between the value and `endobj`
+}
+#[derive(Clone, Debug)]
+pub struct SDoc {
+    pub objs: Vec<SObj>,
+    pub root: u32,
+    pub eol: String, // "lf" | "cr" | "crlf"
+}
+pub fn eol_bytes(e: &str) -> &'static [u8] {
+    match e {
+        "cr" => b"\r",
+        "crlf" => b"\r\n",
+        _ => b"\n",
+    }
+}
+pub fn render_styled(d: &SDoc) -> Vec<u8> {
+    let e = eol_bytes(&d.eol);
+    let mut buf = b"%PDF-1.4".to_vec();
+    buf.extend_from_slice(e);
+    buf.extend_from_slice(b"%\xE2\xE3\xCF\xD3");
+    buf.extend_from_slice(e);
+    let mut offs: Vec<(u32, usize)> = vec![];
+    for o in &d.objs {
+        offs.push((o.n, buf.len()));
+        buf.extend_from_slice(format!("{} 0 obj", o.n).as_bytes());
+        buf.extend_from_slice(&o.sep);
+        buf.extend_from_slice(&o.body);
+        buf.extend_from_slice(&o.pre_end);
+        buf.extend_from_slice(b"endobj");
+        buf.extend_from_slice(e);
+    }
+    let size = d.objs.iter().map(|o| o.n + 1).max().unwrap_or(1);
+    let xoff = buf.len();
+    let ent_eol: &[u8] = match d.eol.as_str() {
+        "cr" => b" \r",
+        "crlf" => b"\r\n",
+        _ => b" \n",
+    };
+    let mut put = |buf: &mut Vec<u8>, s: String| {
+        buf.extend_from_slice(s.as_bytes());
+        buf.extend_from_slice(e);
+    };
+    put(&mut buf, "xref".into());
+    put(&mut buf, format!("0 {}", size));
+    for i in 0..size {
+        match offs.iter().rev().find(|o| o.0 == i) {
+            Some((_, off)) if i != 0 => buf.extend_from_slice(format!("{:010} 00000 n", off).as_bytes()),
+            _ => buf.extend_from_slice(b"0000000000 65535 f"),
+        }
+        buf.extend_from_slice(ent_eol);
+    }
+    put(&mut buf, "trailer".into());
+    put(&mut buf, format!("<< /Size {} /Root {} 0 R >>", size, d.root));
+    put(&mut buf, "startxref".into());
+    put(&mut buf, format!("{}", xoff));
+    put(&mut buf, "%%EOF".into());
+    buf
+}
+
+/// value kinds: how the token starts / ends decides which separators are legal
+#[derive(Clone, Copy, PartialEq)]
+enum Edge {
+    Delim,   // starts/ends with a delimiter character: no white space needed
+    Regular, // starts/ends with a regular character: white space (or a comment) needed
+}
+
+/// `mode`: 0 = random style per object, 1 = as compact as the syntax allows, 2 = a comment after
+/// every header, 3 = plain (space / EOL everywhere; control)
+pub fn gen_styled(r: &mut Rng, pages: u32, eol: &str, mode: u64, shuffle: bool) -> SDoc {
+    let e = String::from_utf8(eol_bytes(eol).to_vec()).unwrap();
+    let first_page = 14u32;
+    let kids: Vec<u32> = (0..pages).map(|i| first_page + 2 * i).collect();
+    let mut raw: Vec<(u32, Vec<u8>, Edge, Edge)> = vec![
+        (1, b"<< /Type /Catalog /Pages 2 0 R /Lang 6 0 R /Flag 10 0 R >>".to_vec(), Edge::Delim, Edge::Delim),
+        (2, format!("<< /Type /Pages /Kids 3 0 R /Count {} >>", pages).into_bytes(), Edge::Delim, Edge::Delim),
+        (3, format!("[{}]", kids.iter().map(|k| format!("{} 0 R", k)).collect::<Vec<_>>().join(" ")).into_bytes(), Edge::Delim, Edge::Delim),
+        (4, b"[0 0 612 792]".to_vec(), Edge::Delim, Edge::Delim),
+        (5, b"/DeviceRGB".to_vec(), Edge::Delim, Edge::Regular),
+        (6, b"(text \\(nested\\) (balanced) here)".to_vec(), Edge::Delim, Edge::Delim),
+        (7, b"<48656C6C6F20776F726C64>".to_vec(), Edge::Delim, Edge::Delim),
+        (8, b"0".to_vec(), Edge::Regular, Edge::Regular),
+        (9, b"1.5".to_vec(), Edge::Regular, Edge::Regular),
+        (10, b"true".to_vec(), Edge::Regular, Edge::Regular),
+        (11, b"false".to_vec(), Edge::Regular, Edge::Regular),
+        (12, b"null".to_vec(), Edge::Regular, Edge::Regular),
+        (13, b"<< /Producer (C19 styled) /Marker [/A (b) <63> 4 0 R] >>".to_vec(), Edge::Delim, Edge::Delim),
+    ];
+    for i in 0..pages {
+        let p = first_page + 2 * i;
+        let c = p + 1;
+        raw.push((
+            p,
+            format!(
+                "<< /Type /Page /Parent 2 0 R /MediaBox 4 0 R /Rotate 8 0 R /UserUnit 9 0 R /Resources << /ColorSpace << /CS0 5 0 R >> >> /Contents {} 0 R /Title 6 0 R /PieceId 7 0 R /Yes 10 0 R /No 11 0 R /Nothing 12 0 R /Info 13 0 R >>",
+                c
+            )
+            .into_bytes(),
+            Edge::Delim,
+            Edge::Delim,
+        ));
+        let data = format!("BT /F1 12 Tf 72 700 Td (page {}) Tj ET", i);
+        let mut b = format!("<< /Length {} >>{}stream\n", data.len(), e).into_bytes();
+        b.extend_from_slice(data.as_bytes());
+        b.extend_from_slice(b"\nendstream");
+        raw.push((c, b, Edge::Delim, Edge::Regular));
+    }
+    let seps_delim: Vec<String> = vec!["".into(), " ".into(), e.clone(), "\t".into(), format!("%c{}", e), format!(" % note{}", e), "\x0c".into(), format!(" {}", e)];
+    let seps_reg: Vec<String> = vec![" ".into(), e.clone(), "\t".into(), format!("%c{}", e), format!(" % note{}", e), format!(" {}", e)];
+    let ends_delim: Vec<String> = vec!["".into(), " ".into(), e.clone()];
+    let ends_reg: Vec<String> = vec![" ".into(), e.clone()];
+    let mut objs: Vec<SObj> = raw
+        .into_iter()
+        .map(|(n, body, st, en)| {
+            let (sep, pre_end) = match mode {
+                1 => (if st == Edge::Delim { String::new() } else { " ".into() }, if en == Edge::Delim { String::new() } else { " ".into() }),
+                2 => (format!("%c{}", e), e.clone()),
+                3 => (e.clone(), e.clone()),
+                _ => (
+                    if st == Edge::Delim { r.pick(&seps_delim).clone() } else { r.pick(&seps_reg).clone() },
+                    if en == Edge::Delim { r.pick(&ends_delim).clone() } else { r.pick(&ends_reg).clone() },
+                ),
+            };
+            SObj { n, body, sep: sep.into_bytes(), pre_end: pre_end.into_bytes() }
+        })
+        .collect();
+    if shuffle {
+        for i in (1..objs.len()).rev() {
+            let j = r.below(i as u64 + 1) as usize;
+            objs.swap(i, j);
+        }
+    }
+    SDoc { objs, root: 1, eol: eol.to_string() }
+}
